@@ -14,6 +14,12 @@ OPSEM = {
 }
 
 
+UOPSEM = {
+    "-": lambda a, m: (-a) & m,
+    "~": lambda a, m: (~a) & m,
+}
+
+
 def init_byte(a):
     """initial content of memory (a fixed, address-dependent pattern)"""
     return (a * 131 + 89 + (a >> 8) * 7) & 0xFF
@@ -115,3 +121,165 @@ def run(prog, st):
     for s in prog["stmts"]:
         step(st, s, prog["be"])
     return st
+
+
+# ---------------------------------------------------------------------------------------------------
+# canonical expressions (the common dump format of map_real.canon and of the Lean driver)
+# ---------------------------------------------------------------------------------------------------
+
+COMMUTATIVE = ("+", "^", "&", "|")
+
+
+def norm_canon(c):
+    """canonical parts with the operands of commutative operators sorted (amoco orders them lexically)"""
+    import json
+    out = []
+    for p in c:
+        if p[0] == "c":
+            out.append(["c", p[1], p[2]])
+        else:
+            out.append(["s", _norm_leaf(p[1]), p[2], p[3]])
+    return out
+
+
+def _norm_leaf(l):
+    import json
+    k = l[0]
+    if k == "r" or k == "?":
+        return list(l)
+    if k == "l":
+        return ["l", norm_canon(l[1]), l[2], l[3], l[4], [_norm_mod(m) for m in l[5]]]
+    if k == "a":
+        return ["a", norm_canon(l[1]), l[2], l[3]]
+    if k == "o":
+        a, b = norm_canon(l[2]), norm_canon(l[3])
+        if l[1] in COMMUTATIVE and json.dumps(b, sort_keys=True) < json.dumps(a, sort_keys=True):
+            a, b = b, a
+        return ["o", l[1], a, b, l[4]]
+    if k == "u":
+        return ["u", l[1], norm_canon(l[2]), l[3]]
+    return list(l)
+
+
+def _norm_mod(m):
+    if m and m[0] == "reg-mod":
+        return list(m)
+    return [norm_canon(m[0]), m[1], norm_canon(m[2]), m[3]]
+
+
+class CanonUnknown(Exception):
+    pass
+
+
+def eval_canon(c, st):
+    """value of a canonical expression under the state st (loads replay their mods on a private copy)"""
+    v, pos = 0, 0
+    for p in c:
+        if p[0] == "c":
+            v |= (p[1] & ((1 << p[2]) - 1)) << pos
+            pos += p[2]
+        else:
+            x = _eval_leaf(p[1], st)
+            v |= ((x >> p[2]) & ((1 << p[3]) - 1)) << pos
+            pos += p[3]
+    return v
+
+
+def width_canon(c):
+    return sum(p[2] if p[0] == "c" else p[3] for p in c)
+
+
+def _eval_leaf(l, st):
+    k = l[0]
+    if k == "r":
+        return st.reg(l[1]) & ((1 << l[2]) - 1)
+    if k == "a":
+        return (eval_canon(l[1], st) + l[2]) & ((1 << l[3]) - 1)
+    if k == "o":
+        f = OPSEM.get(l[1])
+        if f is None:
+            raise CanonUnknown(l[1])
+        return f(eval_canon(l[2], st), eval_canon(l[3], st), (1 << l[4]) - 1)
+    if k == "u":
+        f = UOPSEM.get(l[1])
+        if f is None:
+            raise CanonUnknown(l[1])
+        return f(eval_canon(l[2], st), (1 << l[3]) - 1)
+    if k == "l":
+        s2 = st
+        if l[5]:
+            s2 = st.copy()
+            for m in l[5]:
+                if m[0] == "reg-mod":
+                    raise CanonUnknown("reg-mod")
+                w = width_canon(m[0])
+                a = (eval_canon(m[0], st) + m[1]) & ((1 << w) - 1)
+                s2.write(a, width_canon(m[2]) // 8, eval_canon(m[2], st), m[3])
+        w = width_canon(l[1])
+        a = (eval_canon(l[1], st) + l[2]) & ((1 << w) - 1)
+        return s2.read(a, l[3] // 8, l[4])
+    raise CanonUnknown(k)
+
+
+def probe_states(regsize, r, k=3):
+    """a few states for semantic comparison of canonical expressions"""
+    out = []
+    for i in range(k):
+        regs = {}
+        for n, s in regsize.items():
+            regs[n] = r.getrandbits(s) if s > 32 else (0x2000 + 0x40 * r.randrange(0, 4) + r.randrange(0, 8) if i % 2 == 0 else r.getrandbits(s))
+        out.append(State(regs, regsize))
+    return out
+
+
+def load_leaves(c, out=None):
+    """every load leaf of a (normalised) canonical expression, with its mods, as strings"""
+    import json
+    if out is None:
+        out = []
+    for p in c:
+        if p[0] != "s":
+            continue
+        l = p[1]
+        if l[0] == "l":
+            out.append(json.dumps(["l", l[1], l[2] - 0, l[4], l[5]], sort_keys=True))
+            load_leaves(l[1], out)
+            for m in l[5]:
+                if m and m[0] != "reg-mod":
+                    load_leaves(m[0], out)
+                    load_leaves(m[2], out)
+        elif l[0] == "o":
+            load_leaves(l[2], out)
+            load_leaves(l[3], out)
+        elif l[0] in ("a", "u"):
+            load_leaves(l[1] if l[0] == "a" else l[2], out)
+    return out
+
+
+def same_canon(a, b, states):
+    """structurally equal (modulo operand order of commutative operators), or — when they differ only by
+       the algebra's rewriting — equal in value on the probe states.  returns "equal" | "semantic" | "different" """
+    import json
+    na, nb = norm_canon(a), norm_canon(b)
+    if json.dumps(na, sort_keys=True) == json.dumps(nb, sort_keys=True):
+        return "equal"
+    if width_canon(a) != width_canon(b):
+        return "different"
+    try:
+        for st in states:
+            if eval_canon(a, st) != eval_canon(b, st):
+                return "different"
+    except CanonUnknown:
+        return "different"
+    # equal in value; the algebra may have reordered / folded operators, but the loads (base, mods, byte order)
+    # the two sides mention should be the same ones — reported apart when they are not
+    def sig(leaves):
+        out = set()
+        for x in leaves:
+            l = json.loads(x)
+            out.add(json.dumps([l[1], l[2], l[3], [[m[0], m[1], m[3]] for m in l[4] if m and m[0] != "reg-mod"]], sort_keys=True))
+        return out
+    sa, sb = sig(load_leaves(na)), sig(load_leaves(nb))
+    if sa != sb and not (sa <= sb or sb <= sa):
+        return "semantic-mods-differ"
+    return "semantic"
